@@ -167,6 +167,8 @@ var touches = []string{
 	// bridged Go functions and slices of the template: results are built in the calling runtime, the slice header is per runtime
 	"if (typeof goEcho === 'function') { var ge = goEcho([1, 2]); Object.getPrototypeOf(ge).viaGo = (Object.getPrototypeOf(ge).viaGo || 0) + 1; log(Object.getPrototypeOf(ge) === Array.prototype, Array.prototype.viaGo, goAdd(2, 3)); try { goAdd('x', 1) } catch (e) { log(e instanceof TypeError || e instanceof RangeError) } }",
 	"if (typeof goList === 'object') { goList.push(goList.length); goList.push(7); log(goList.length, goList.join()) }",
+	"if (typeof goSpare === 'object') { goSpare.push(goSpare.length * 10 + 1); goSpare.length = goSpare.length + 2; goSpare.push(5); log(goSpare.length, goSpare.join()) }",
+	"if (typeof goMap === 'object') { var ks = []; for (var k in goMap) ks.push(k); log(ks.join(), Object.keys(goMap).join(), Object.getOwnPropertyNames(goMap).join()) }",
 	// objects the runtime creates itself take their prototype from an internal table: write through it
 	"try { decodeURIComponent('%') } catch (e) { var p = Object.getPrototypeOf(e); p.tag = (p.tag || 0) + 1; log(e instanceof URIError, p.tag, URIError.prototype.tag) }",
 	"try { eval('(') } catch (e) { var p = Object.getPrototypeOf(e); p.tag = (p.tag || 0) + 1; log(e instanceof SyntaxError, p.tag, SyntaxError.prototype.tag) }",
@@ -478,6 +480,8 @@ func checkOne(c *run.Ctx, in Input) {
 		t.Set("goEcho", func(x []int) []int { return x })
 		t.Set("goAdd", func(a, b int) int { return a + b })
 		t.Set("goList", []int{1, 2, 3})
+		t.Set("goSpare", make([]int, 1, 64)) // spare capacity: an append does not reallocate
+		t.Set("goMap", map[string]int{"a": 1, "b": 2, "c": 3, "d": 4, "e": 5, "f": 6, "g": 7})
 		l := attach(t)
 		execute(t, l, in.Setup)
 		return t
